@@ -62,12 +62,15 @@ def regress_main(args):
             import signal
 
             signal.signal(signal.SIGALRM, core._alarm_handler)
-            signal.alarm(sub.case_timeout[0] * 2)
+            signal.signal(signal.SIGPROF, core._alarm_handler)
+            signal.setitimer(signal.ITIMER_PROF, sub.case_timeout[0] * 2)   # CPU time; wall clock only for a case that blocks
+            signal.alarm(sub.case_timeout[0] * 10)
             try:
                 key, detail = core.run_replay(args.prop, sub, rep["case"], args.tier)
             except core.HangAbort as h:
                 key, detail = f"{rep['subcheck']}:hang:{h.where}", "watchdog expired while replaying a saved input"
             finally:
+                signal.setitimer(signal.ITIMER_PROF, 0)
                 signal.alarm(0)
             n += 1
         except Exception as e:  # a saved input that no longer parses is a harness matter, never a violation
